@@ -154,10 +154,17 @@ theorem render_pathPrefixed (items : List ToolItem) (sv : SettingsView) (ti : St
     cases h
     exact ⟨rest, by simp⟩
 
+/-- toolinfo determines the analysis options (trivially true along a history that never changes an option; the subject of C19) -/
+def OptsDetermined (L : List FileInput) : Prop := ∀ a ∈ L, ∀ b ∈ L, a.toolinfo = b.toolinfo → a.opts = b.opts
+
+instance (L : List FileInput) : Decidable (OptsDetermined L) := by unfold OptsDetermined; infer_instance
+
 /-- **the proposed hash data determines the analysis input** (no hypothesis on the tokens) -/
-theorem fixed_key_faithful (L : List FileInput) (hp : ∀ i ∈ L, PathPrefixed i) : KeyFaithfulOn Encoding.fixed L := by
+theorem fixed_key_faithful (L : List FileInput) (hp : ∀ i ∈ L, PathPrefixed i) (ho : OptsDetermined L) :
+    KeyFaithfulOn Encoding.fixed L := by
   intro a ha b hb h
   obtain ⟨h1, h2, h3⟩ := hashInput_fixed_unique a b h
+  have hopts := ho a ha b hb h1
   obtain ⟨ra, hra⟩ := hp a ha
   obtain ⟨rb, hrb⟩ := hp b hb
   have hpath : a.path = b.path := by
@@ -165,7 +172,7 @@ theorem fixed_key_faithful (L : List FileInput) (hp : ∀ i ∈ L, PathPrefixed 
       have := hra.trans (h1.trans hrb.symm)
       simpa using this
     exact (lenPrefixed_unique _ _ _ _ e).1
-  simp only [FileInput.view, hpath, h2, h3]
+  simp only [FileInput.view, hpath, h2, h3, hopts]
 
 /-- AnalyzerInformation::getFilesTxt never gives two listed files the same cache file (any list of paths, any order,
     after any add / remove / rename), and with the exact-first lookup each file finds its own -/
@@ -182,18 +189,20 @@ example : NoSuffixPair ["a.c".toList, "d/b.c".toList, "ba.cpp".toList] ∧ ["a.c
   decide +kernel
 
 /-- **Transparency for the proposed code** (/verif/proposed/C18-hash-linecol.diff + C18-filestxt-exact.diff): only the hash
-    collisions, the macro-scoped suppressions and the return summaries remain as hypotheses; every edit history qualifies. -/
+    collisions, the macro-scoped suppressions and the return summaries remain as hypotheses (`hopt` holds for every history
+    that changes no option); every edit history qualifies. -/
 theorem history_transparent_fixed (W : World H S F) (t0 : Tree) (evs : List Event)
     (henc : W.enc = Encoding.fixed) (hlk : W.lk = .exactFirst)
     (hinj : Function.Injective W.hash)
     (hpath : ∀ r ∈ runsOf t0 evs, ∀ i ∈ r.2, PathPrefixed i)
+    (hopt : OptsDetermined ((runsOf t0 evs).flatMap (·.2)))
     (hnd : ∀ r ∈ runsOf t0 evs, (r.2.map (·.path)).Nodup)
     (hmac : ∀ r ∈ runsOf t0 evs, MacroFree W r.1 r.2)
     (hsum : ∀ r ∈ cachedRuns W ([], []) t0 evs, SummFree W r.1 r.2) :
     execCached W ([], []) t0 evs = execFresh W t0 evs := by
   refine history_transparent_partial W t0 evs hinj ?_ hmac ?_ hsum
   · rw [henc]
-    apply fixed_key_faithful
+    refine fixed_key_faithful _ ?_ hopt
     intro i hi
     obtain ⟨r, hr, hir⟩ := List.mem_flatMap.mp hi
     exact hpath r hr i hir
@@ -204,10 +213,11 @@ example :
     let W := toyWorld Encoding.fixed .exactFirst
     let t0 : Tree := [(mkInput "t.c" [("x", 1, 1), ("!", 1, 25)]).withPathPrefix]
     let evs := [Event.run showAll, .edit (shiftLines "t.c".toList 256), .run showAll]
-    (∀ r ∈ runsOf t0 evs, ∀ i ∈ r.2, PathPrefixed i) ∧ (∀ r ∈ runsOf t0 evs, (r.2.map (·.path)).Nodup)
+    (∀ r ∈ runsOf t0 evs, ∀ i ∈ r.2, PathPrefixed i) ∧ OptsDetermined ((runsOf t0 evs).flatMap (·.2))
+    ∧ (∀ r ∈ runsOf t0 evs, (r.2.map (·.path)).Nodup)
     ∧ (∀ r ∈ runsOf t0 evs, MacroFree W r.1 r.2) ∧ (∀ r ∈ cachedRuns W ([], []) t0 evs, SummFree W r.1 r.2)
     ∧ (execCached W ([], []) t0 evs).map (·.perFile.flatten.map (·.line)) = [[1], [257]] := by
-  refine ⟨by decide +kernel, by decide +kernel, by decide +kernel, by decide +kernel, by decide +kernel⟩
+  refine ⟨by decide +kernel, by decide +kernel, by decide +kernel, by decide +kernel, by decide +kernel, by decide +kernel⟩
 
 /-! ## what the code composes today (regenerated from the source on every run) -/
 
@@ -221,7 +231,8 @@ theorem current_toolinfo_fields_known :
     ∀ it ∈ Cppcheck.Gen.HashInput.toolinfoItems, ∀ f ∈ it.fields,
       f ∈ ["cppcheckCfgProductName", "severity:warning", "severity:style", "severity:performance", "severity:portability",
            "severity:information", "userDefines", "checkConfiguration", "force", "maxConfigsOption", "checkLevel", "addonInfos",
-           "premiumArgs", "suppressions"] := by
+           "premiumArgs", "suppressions", "certainty:inconclusive", "checks:unusedFunction", "checks:missingInclude", "userUndefs",
+           "standards", "platform", "libraries"] := by
   decide
 
 end Cppcheck.Cache
